@@ -1406,3 +1406,18 @@ package zygo
 //@ ghost opTok := ite(ret1 == nil, ret0.typ, TokenEnd) @after call ParserPeekNextToken[0]
 //@ C13 assert operand-token-has-arrived @before call ParseExpression[0]: arg0 == parser && opTok != TokenEnd
 //@ callers C13 (*Parser).ParseExpression | (*Parser).ParsingIter, (*Parser).parseOperand, (*Parser).ParseList, (*Parser).ParseArray, (*Parser).ParseInfix, (*Parser).ParseExpression
+
+// the tail self-call ends with exactly: prepare-call, pop the activation's function scope,
+// go to instruction 0 (which makes the new function scope). Any other way of re-entering
+// (recycling the scope object, jumping past instruction 0) shares variables between iterations.
+//@ func (*Generator).AddInstruction
+//@ C03,C09 ensures appended: len(gen.instructions) == old(len(gen.instructions)) + 1 && gen.instructions[len(gen.instructions)-1] == instr
+//@ C03,C09 ensures prefix-kept: forall(k, 0 <= k && k < old(len(gen.instructions)) ==> gen.instructions[k] == old(gen.instructions[k]))
+//@ func (*Generator).GenerateCallBySymbol
+//@ ghost sincePrepare := 0 - 1 @entry
+//@ C03,C09 assert after-prepare-pop-the-function-scope @before call AddInstruction[*]: sincePrepare == 0 ==> typeis(arg1, RemoveScopeInstr) && arg0 == gen
+//@ C03,C09 assert then-go-to-instruction-zero @before call AddInstruction[*]: sincePrepare == 1 ==> typeis(arg1, GotoInstr) && arg1.(GotoInstr).location == 0 && arg0 == gen
+//@ C03,C09 assert and-nothing-else @before call AddInstruction[*]: sincePrepare < 2
+//@ ghost sincePrepare := ite(typeis(arg1, PrepareCallInstr), 0, ite(sincePrepare >= 0, sincePrepare + 1, 0 - 1)) @after call AddInstruction[*]
+//@ C03,C09 ensures tail-call-re-enters-like-a-call: r0 == nil ==> sincePrepare == 0 - 1 || sincePrepare == 2
+//@ C03,C09 loop 0 invariant sincePrepare == 0 - 1
